@@ -86,6 +86,14 @@ class UserMove(Strict):
             return {"True": True, "1": 1, "x": "x", "[0]": [0], "False": False, "0": 0, "None": None, "": "", "[]": []}[act[1]]
         return True
 
+    # value semantics (a dataclass-like user class): two distinct instances with the same settings compare equal; a driver has no business asking
+    def __eq__(self, other):
+        LOG.append(["getattr", object.__getattribute__(self, "_v_id"), "__eq__"])
+        return type(other) is type(self)
+
+    def __hash__(self):
+        return 7
+
     def on_atoms_changed(self, added_indices, removed_indices):
         LOG.append(["atoms_changed", self._v_id, [int(i) for i in np.ravel(added_indices)], [int(i) for i in np.ravel(removed_indices)]])
 
@@ -178,13 +186,27 @@ def handler(c):
             table.append([ent["name"], None, 100 + len(table)])
     trials = []
     cur = None
+    kid_of = {t[0]: t[2] for t in table}
+    ent_of = {e["name"]: e for e in c["table"]}
+    ntr = 0
     for step in mc.irun(c["steps"]):
         for name in step:
             if cur is not None:
                 cur.update(end=len(LOG), hist=[str(mc.move_history[-1][0]), None if mc.move_history[-1][1] is None else bool(mc.move_history[-1][1])],
                            n_after=len(atoms), cell_after=cell_token(atoms.cell.array), snap_end=len(snaps))
                 trials.append(cur)
-            cur = {"name": str(name), "start": len(LOG), "n_before": len(atoms), "cell_before": cell_token(atoms.cell.array), "snap_start": len(snaps)}
+            name = str(name)
+            if ntr == c.get("reannounce_at") and ent_of[name]["kind"] == "user":
+                # the consumer of the step generator re-registers the announced entry with a NEW criteria object before the trial runs:
+                # the table is what counts when the trial is executed
+                newk = 300 + ntr
+                mc.add_move(objs[ent_of[name]["oid"]], criteria=UserCriteria(newk, verdicts, snaps), name=name, probability=ent_of[name].get("probability", 1.0))
+                kid_of[name] = newk
+                for t_ in table:
+                    if t_[0] == name:
+                        t_[2] = newk
+            ntr += 1
+            cur = {"name": name, "kid": kid_of[name], "start": len(LOG), "n_before": len(atoms), "cell_before": cell_token(atoms.cell.array), "snap_start": len(snaps)}
         if cur is not None:
             cur.update(end=len(LOG), hist=[str(mc.move_history[-1][0]), None if mc.move_history[-1][1] is None else bool(mc.move_history[-1][1])],
                        n_after=len(atoms), cell_after=cell_token(atoms.cell.array), snap_end=len(snaps))
